@@ -60,11 +60,14 @@ def build(version, dialog, exceptions):
 def explore(task):
     version, dialog, exceptions, path, turns, pairs, kinds = task[:7]
     _RAILSET[0] = task[7] if len(task) > 7 else "single"
+    from vf.engines.world import World
+    World.action_form = task[8] if len(task) > 8 else "async"
     ins, outs = RAILS[_RAILSET[0]]
     v2 = version == "2.x"
     res = {"worlds": 1, "conversations": 0, "faults_injected": 0, "faulted_turns_fail_closed": 0,
            "next_turns_checked": 0, "next_turn_spurious_refusals": 0, "action_sites": 0, "viol": []}
-    info0 = {"engine": "E3-world", "prop": "C03", "version": version, "dialog": dialog, "exceptions": exceptions, "path": path}
+    info0 = {"engine": "E3-world", "prop": "C03", "version": version, "dialog": dialog, "exceptions": exceptions, "path": path,
+             "railset": _RAILSET[0], "action_form": World.action_form}
     world = build(version, dialog, exceptions)
     verd = {r: "A" for r in ins + outs}
     fn = llm_fn_for(path, version)
@@ -151,7 +154,8 @@ def explore(task):
                     elif second is not None:
                         res["viol"].append((f"{sig}:{'v2' if v2 else 'v1'}:{path}:second-fault-after-a-hidden-turn:{'+'.join(failed_sites) or 'none'}", what, info))
                     else:
-                        res["viol"].append((f"{sig}:{'v2' if v2 else 'v1'}:{path}:{'+'.join(failed_sites) or 'none'}:{kind}", what, info))
+                        form = "" if World.action_form == "async" else ":" + World.action_form + "-action"
+                        res["viol"].append((f"{sig}:{'v2' if v2 else 'v1'}:{path}:{'+'.join(failed_sites) or 'none'}:{kind}{form}", what, info))
 
                 bad_turn = next((t for t in conv if t.exc is not None), None)
                 if bad_turn is not None:
@@ -379,6 +383,8 @@ define bot ask if still there
 
 
 def dispatch(task):
+    from vf.engines.world import World
+    World.action_form = "async"
     if task[0] == "extra":
         return explore_extra(task)
     if task[0] == "audit":
@@ -400,6 +406,15 @@ def tasks(tier):
             out.append(("1.0", False, exc, "general", turns, pairs, kinds, "double"))
             out.append(("1.0", True, exc, "lookup", turns, pairs, kinds, "double"))
             out.append(("2.x", False, exc, "free", turns, pairs, kinds, "double"))
+    # the exception classes an action may raise (the dispatcher has class-specific handlers) and the
+    # ways an action can be registered (async / plain sync / sync wrapper returning the coroutine)
+    from vf.engines.world import FAULT_CLASSES
+    cls_kinds = tuple("raise:" + c for c in FAULT_CLASSES)
+    for exc in (False, True):
+        for w in (("1.0", False, exc, "general"), ("1.0", True, exc, "lookup"), ("2.x", False, exc, "free")):
+            out.append(w + (turns, False, cls_kinds, "single", "async"))
+            for form in ("sync", "wrapped"):
+                out.append(w + (turns, tier == "thorough", ("raise", "none") if tier == "thorough" else ("raise",), "single", form))
     out.append(("audit", False, 3 if tier == "quick" else 4, kinds))
     out.append(("extra",))
     return out
@@ -432,6 +447,9 @@ def run(rep, tier):
 
 
 def replay(rp):
+    from vf.engines.world import World
+    World.action_form = rp.get("action_form", "async")
+    _RAILSET[0] = rp.get("railset", "single")
     world = build(rp["version"], rp["dialog"], rp["exceptions"])
     v2 = rp["version"] == "2.x"
     fn = llm_fn_for(rp["path"], rp["version"])
